@@ -900,7 +900,7 @@ def run_batch(ctx, res, journal, pool0, cases, tag):
                 s = sx[5].decode()
                 pool[s] = max(pool.get(s, 0), sx[3])
         lines.append(lib.sx(['case', '%s%d' % (tag, i), c03.pool_sx(pool),
-                             ['pool0'] + c03.pool_sx(pool0)[1:], ['toks'] + c.sxs]))
+                             ['pool0'] + c03.pool_sx(pool0)[1:], ['text', (' ' + c.text).encode()]]))
     t1 = time.time()
     mo = lib.run_model('C15', lines)
     res.extra['t_impl'] = res.extra.get('t_impl', 0) + round(t1 - t0, 2)
@@ -1105,7 +1105,8 @@ def run_define_batch(ctx, res, pool0, cases):
     path = ctx.path('defines.dat')
     open(path, 'w').write('\n'.join(head + [''] + lines) + '\n')
     out_v = [canon_val(b) for b in lib.run_repl(path, ["eval 'verif_rational(%s)'" % c.text for c in cases])]
-    mlines = [lib.sx(['case', 'df%d' % i, c03.pool_sx(pool0), ['pool0'] + c03.pool_sx(pool0)[1:], ['toks'] + c.sxs])
+    mlines = [lib.sx(['case', 'df%d' % i, c03.pool_sx(pool0), ['pool0'] + c03.pool_sx(pool0)[1:],
+                      ['text', '; '.join(c.tag + [c.text]).encode()]])
               for i, c in enumerate(cases)]
     model = {}
     for l in lib.run_model('C15', mlines):
